@@ -343,6 +343,7 @@ class AdiabaticModel_(ElectronicModel_):
 
                 out[i, j, :] /= dE
                 out[j, i, :] /= -dE
+            out[j, j, :] = 0.0
 
         return out
 
